@@ -44,11 +44,13 @@ func main() {
 		seed := fs.Int64("seed", envInt("VERIF_SEED", 1), "seed")
 		count := fs.Int("count", 0, "number of scenarios (0 = tier default)")
 		from := fs.Int("from", 0, "first scenario index")
+		evName := fs.String("evidence-name", "", "evidence file base name (default: the property id)")
+		merge := fs.String("merge", "", "evidence file of a side run (e.g. the -race build) to embed")
 		workers := fs.Int("workers", 0, "worker processes (0 = number of CPUs)")
 		verif := fs.String("verif", "/verif", "verif root")
 		instr := fs.String("instr-report", "", "instrumentation report to embed in the evidence")
 		_ = fs.Parse(os.Args[2:])
-		os.Exit(runDriver(*prop, *tier, *seed, *from, *count, *workers, *verif, *instr))
+		os.Exit(runDriver(*prop, *tier, *seed, *from, *count, *workers, *verif, *instr, *evName, *merge))
 	case "replay":
 		fs := flag.NewFlagSet("replay", flag.ExitOnError)
 		verbose := fs.Bool("v", false, "print the event log")
